@@ -70,7 +70,14 @@ func (r *Report) Sample(s interface{}) {
 func (r *Report) Violate(v Violation) {
 	v.Property = r.Property
 	v.Seed = r.Seed
-	if len(r.Violations) < 20 {
+	// keep the report small but diverse: at most 4 violations per signature, 40 in all
+	n := 0
+	for _, x := range r.Violations {
+		if x.Sig == v.Sig {
+			n++
+		}
+	}
+	if n < 4 && len(r.Violations) < 40 {
 		r.Violations = append(r.Violations, v)
 	}
 }
